@@ -20,22 +20,25 @@ CHECK_DEADLOCK FALSE
 OWNER = {"C01": "C01", "C02": "C02", "C03": "C03", "C04": "C04", "C14": "C14", "C17": "C17", "C18": "C18"}
 
 PROPS = {
-    "C01": dict(modes={"quick": [("path", "quick"), ("regexpos", "quick")], "thorough": [("path", "thorough"), ("headers", "quick"), ("regexpos", "quick")]},
+    "C01": dict(modes={"quick": [("path", "quick"), ("regexpos", "quick"), ("media2", "quick")],
+                       "thorough": [("path", "thorough"), ("headers", "quick"), ("regexpos", "quick"), ("media2", "quick")]},
                 plan=dict(perms=0, slash=False, entries=["D", "S"], conc=8),
-                random={"quick": [("mixed", 220, 20), ("headers", 80, 24)],
-                        "thorough": [("mixed", 4000, 30), ("headers", 1500, 40)]},
+                random={"quick": [("mixed", 220, 20), ("headers", 80, 24), ("headers", 40, 24, {"defReqCT": "application/json"})],
+                        "thorough": [("mixed", 4000, 30), ("headers", 1500, 40), ("headers", 500, 40, {"defReqCT": "application/json"})]},
+                # the package-level default request content type is for reading entities, not for routing
+                twins=[dict(name="defct", over={"defReqCT": "application/json"}, modes={"media2", "headers"})],
                 counter="judged",
                 rule="cases = (route table, request) pairs: every table of MC_Routing's pools with requests derived "
                      "from its templates (match and near-miss values per token), plus seeded random tables with "
                      "requests mutated from matching ones; each is sent through Dispatch and ServeHTTP of real "
                      "containers under both routers, and all requests of a table once more from 8 goroutines at once. Non-trivial = distinct (table, request, outcome) in which a "
                      "route function ran (the property's antecedent)."),
-    "C02": dict(modes={"quick": [("headers", "quick"), ("roots", "quick"), ("regexpos", "quick")],
-                       "thorough": [("headers", "thorough"), ("roots", "thorough"), ("path", "quick"), ("regexpos", "quick")]},
+    "C02": dict(modes={"quick": [("headers", "quick"), ("roots", "quick"), ("regexpos", "quick"), ("media2", "quick")],
+                       "thorough": [("headers", "thorough"), ("roots", "thorough"), ("path", "quick"), ("regexpos", "quick"), ("media2", "quick")]},
                 plan=dict(perms=0, slash=False, entries=["D", "S"]),
                 random={"quick": [("headers", 150, 24), ("mixed", 150, 20)],
                         "thorough": [("headers", 3000, 40), ("mixed", 3000, 30)]},
-                tracing_twin=True,
+                twins=[dict(name="tracing", over={"tracing": True})],
                 counter="judged",
                 rule="cases as for C01, from the header pools (method x Consumes x Produces x condition x body) and "
                      "the two-service root pools; every case is also run with trace logging on. Non-trivial = "
@@ -45,6 +48,8 @@ PROPS = {
                        "thorough": [("path", "thorough"), ("roots", "thorough"), ("order3", "quick"), ("roots4", "quick"), ("media", "quick")]},
                 plan=dict(perms=3, slash=False, entries=["D"]),
                 random={"quick": [("mixed", 200, 16)], "thorough": [("mixed", 4000, 30)]},
+                # the root pools once more through ServeHTTP (the ServeMux registrations depend on the Add order)
+                twins=[dict(name="servehttp", over={"entries": ["S"]}, modes={"roots", "roots4"})],
                 counter="dominance",
                 rule="every table is built in 4 registration orders (given, reversed, 2 seeded shuffles) per router as "
                      "separate real containers; outcomes are compared across orders and judged against dominance. "
@@ -57,21 +62,23 @@ PROPS = {
                 rule="cases as for C01; Request.PathParameters() is read inside the invoked handler. Non-trivial = "
                      "judged route outcomes that bind at least one parameter, counted by the trace spec."),
     "C14": dict(modes={"quick": [("path", "quick"), ("roots", "quick")], "thorough": [("path", "thorough"), ("roots", "thorough"), ("headers", "quick")]},
-                plan=dict(perms=0, slash=True, entries=["D"], late=True),
+                plan=dict(perms=0, slash=True, entries=["D"], late=True, slashOptions=True),
                 random={"quick": [("slash", 220, 20)], "thorough": [("slash", 4000, 30), ("headers", 1000, 30)]},
+                # through ServeHTTP, after a WebService sharing the ServeMux prefix was added first and removed again
+                twins=[dict(name="decoy", over={"entries": ["S"], "decoy": True, "late": False, "slashOptions": False}, modes={"roots"})],
                 counter="slashTwins",
                 rule="every request path p without trailing slash is sent as p and as p/ to the same real container; "
                      "Non-trivial = request pairs that qualify (>= 1 non-empty segment; RouterJSR311 only on tables "
                      "without tail wildcard), counted by the trace spec."),
     "C18": dict(modes={"quick": [("agree", "quick")], "thorough": [("agree", "thorough")]},
-                plan=dict(perms=0, slash=True, entries=["D"]),
+                plan=dict(perms=0, slash=True, entries=["D"], late=True),
                 random={"quick": [("common", 400, 24)], "thorough": [("common", 5000, 30)]},
                 counter="routerTwins",
                 rule="every request is sent to twin real containers differing only in Container.Router; Non-trivial = "
                      "requests on common-fragment tables observed under both routers, counted by the trace spec."),
     "C17": dict(modes={"quick": [("agree", "quick")], "thorough": [("agree", "thorough")]},
                 plan=dict(perms=0, slash=False, entries=["D"]),
-                random={"quick": [("allow", 300, 12)], "thorough": [("allow", 3000, 16)]},
+                random={"quick": [("allow", 300, 12), ("mixed", 120, 10)], "thorough": [("allow", 3000, 16), ("mixed", 1500, 16)]},
                 options=True,
                 counter="probes",
                 rule="for every URL of every table one probe request per method (7 methods) on a plain container and "
@@ -274,26 +281,40 @@ def check(run, replay=None):
                             "inconsistent (independent of /repo)\n%s" % (mode, mtier, r.violated, "\n".join(r.lines[-60:])))
             mc_exhaustive.append({"mode": mode, "tier": mtier, "tables": len(r.cases), "states": r.distinct})
             for c in r.cases:
-                t = {"services": c["services"], "reqs": c["reqs"], "options": bool(cfgp.get("options"))}
+                t = {"services": c["services"], "reqs": c["reqs"], "options": bool(cfgp.get("options")), "_mode": mode}
                 tables.append(t)
                 preds[len(tables)] = (c["pred"], c.get("predj"))
     else:
         tables = [replay["table"]]
     plan = dict(cfgp["plan"])
-    plan.update(tables=[{k: v for k, v in t.items() if not k.startswith("_")} for t in tables], random=0, profile="mixed", reqsPer=0)
+    strip = lambda t: {k: v for k, v in t.items() if not k.startswith("_")}
+    plan.update(tables=[strip(t) for t in tables], random=0, profile="mixed", reqsPer=0)
     traces = []
+    overs = {}
+    if replay is not None:
+        # the run-time switches of the source trace (tracing, entry points, decoy, ...)
+        plan.update(replay.get("over", {}))
     traces.append(("mc", run_harness(run, vh, "route", plan, "route-mc")))
     if replay is None:
-        for i, (profile, n, per) in enumerate(cfgp["random"][tier]):
+        for i, rnd in enumerate(cfgp["random"][tier]):
+            profile, n, per = rnd[:3]
             p2 = dict(cfgp["plan"])
             p2.update(tables=[], random=n, profile=profile, reqsPer=per)
+            if len(rnd) > 3:
+                p2.update(rnd[3])
+                overs["rnd%d-%s" % (i, profile)] = rnd[3]
             if cfgp.get("options"):
                 p2["optionsAll"] = True
-            traces.append(("rnd-" + profile, run_harness(run, vh, "route", p2, "route-rnd%d" % i, seed=run.seed * 1000 + i)))
-        if cfgp.get("tracing_twin"):
+            traces.append(("rnd%d-%s" % (i, profile), run_harness(run, vh, "route", p2, "route-rnd%d" % i, seed=run.seed * 1000 + i)))
+        for twin in cfgp.get("twins", []):
+            sub = [strip(t) for t in tables if twin.get("modes") is None or t.get("_mode") in twin["modes"]]
+            if not sub:
+                continue
             p3 = dict(plan)
-            p3["tracing"] = True
-            traces.append(("mc-tracing", run_harness(run, vh, "route", p3, "route-mc-tr")))
+            p3.update(twin["over"])
+            p3["tables"] = sub
+            overs["mc-" + twin["name"]] = twin["over"]
+            traces.append(("mc-" + twin["name"], run_harness(run, vh, "route", p3, "route-mc-" + twin["name"])))
     all_events = []
     tid_base = 0
     tables_by_tid = {}
@@ -365,13 +386,15 @@ def check(run, replay=None):
         payload = {"family": "routing", "property": run.prop, "clause": clause,
                    "table": {"services": table["services"], "reqs": [ev["req"]] if ev["e"] == "req" else
                              [{"m": "GET", "path": ev["path"], "ct": "", "acc": "", "clen": 0, "clh": "", "conds": []}],
-                             "routers": table.get("routers", []), "options": ev["e"] == "probe"},
-                   "plan": cfgp["plan"], "observed": ev.get("outs", ev), "mismatch": mis}
+                             "routers": table.get("routers", []), "options": ev["e"] == "probe", "fixed": True,
+                             "withFilter": table.get("withFilter", False), "flavour": table.get("flavour", 1),
+                             "switched": table.get("switched", False), "swap": table.get("swap", False)},
+                   "plan": cfgp["plan"], "over": overs.get(table.get("_src"), {}), "observed": ev.get("outs", ev), "mismatch": mis}
         path = write_replay(run, clause, payload)
         if ev["e"] == "req":
             text = "%s %s -> %s" % (ev["req"]["m"], ev["req"]["path"], json.dumps(ev["outs"][mis["out"] - 1])[:300])
         else:
-            text = "probe %s %s" % (ev["path"], json.dumps(ev["opt"])[:200])
+            text = "probe %s %s" % (ev["path"], json.dumps(ev.get("opt", [ev.get("allow"), ev.get("sallow")]))[:200])
         run.violations.append((clause, path, text))
     # statistics
     nreq = sum(1 for ev in all_events if ev["e"] == "req")
